@@ -4,10 +4,21 @@
  'models': ['Model/Latch.v'],
  'trusted': ['ingester and FormatReader enter the theorems as Section variables (any behaviour); the '
              'built-in classification tables are extracted from the seven IsContinuableError bodies',
+             'extracted on every run (Gen/LatchShape.v, extractor trusted): the statements of transform.Read and '
+             'transform.RawRecord of transform.go as a program over lastErr / lastRawRecord / the three results of '
+             'ingester.Read(), the type-switch shape of errs.IsErrTransformFailed and the string-payload shape of '
+             'errs.ErrTransformFailed; Model/LatchShape.v interprets the program (assignment, if/else, short-circuit '
+             '&& ||, return; err.Error() on nil = panic) and latch_step_is_source_shape proves the hand-written model '
+             'step equal to that interpretation in every state for every ingester result. The meaning given to the '
+             'five statement forms and to nil comparison is the interpreter\'s, compared with the implementation '
+             'only through the logged runs (check_case_src)',
+             'identifying an error value as ErrTransformFailed (e_cls = CFailed) is the harness\'s own dynamic-type '
+             'assertion, not the library predicate',
              'validity of the JSON bytes is json.Marshal output (stdlib), asserted on every returned slice '
              'by the harness'],
  'assumptions': ['ing_raw_on_success: an ingester returns a raw record whenever it reports success (proved '
-                 'for the built-in ingester; required of caller-supplied ones)'],
- 'level_text': 'Coq theorems over the transcribed Read/RawRecord latch for every ingester (Section variables) and every operation list (induction), plus classification of the seven built-in formats over tables extracted from the source on every run; tied to the code by a correspondence check that replays logged ingester/reader results of real Transforms through the model inside Coq.',
+                 'for the built-in ingester; required of caller-supplied ones); used by rawrecord_law and '
+                 'src_rawrecord_law only - rawrecord_never_stale needs no hypothesis'],
+ 'level_text': 'PROVED in Coq for every ingester (Section variables) and every operation list (induction): the Read/RawRecord contract of the transcribed latch, the per-history facts bytes_only_on_success, failed_wraps_ingester_error, ingester_not_called_after_terminal, error_identity, rawrecord_never_stale, and the classification of the seven built-in formats. EXTRACTED from the source on every run: the statement programs of transform.Read / transform.RawRecord, the shape of errs.IsErrTransformFailed / ErrTransformFailed, the seven IsContinuableError tables; the model step is proved equal to the interpretation of the extracted statements, so an edit of those statements breaks a proof obligation. COMPARED ONLY (correspondence on logged runs of real Transforms, replayed inside Coq through both the model and the interpreter): the built-in ingester transcription, the meaning of the statement forms, error identity by Go ==, the number of ingester calls; JSON validity is asserted by the harness.',
  'level_note': 'Trusted: Coq kernel/vm_compute, the Go harness and extractor, stdlib json.Marshal for JSON validity; ingester enters as a Section variable; no axioms (Print Assumptions: closed).',
- 'technique': 'machine-checked proof in Coq 8.16 (induction over call histories) + model/implementation correspondence + extracted decision tables'}
+ 'technique': 'machine-checked proof in Coq 8.16 (induction over call histories) + statement-level extraction of transform.go interpreted in Coq + model/implementation correspondence + extracted decision tables'}
